@@ -239,6 +239,7 @@ HARNESSES = {
     "prelude": dict(opt="-O1"),
     "state": dict(opt="-O1"),
     "dispatch": dict(opt="-O0"),
+    "evalprog": dict(opt="-O1"),
     "json": dict(opt="-O1", sanitize=True, compiler="clang++-14", flags=["-fno-sanitize=signed-integer-overflow"]),
     "stl": dict(opt="-O1", sanitize=True, compiler="clang++-14"),
 }
@@ -295,7 +296,14 @@ def _harness_build(name, src_name, extra_flags, sanitize, opt, compiler, tsan, h
         return exe, "built"
 
 
-def run_harness(exe, args, lines, timeout=600, env=None):
+def _limit_mem(gb):
+    def f():
+        import resource
+        resource.setrlimit(resource.RLIMIT_AS, (gb << 30, gb << 30))
+    return f
+
+
+def run_harness(exe, args, lines, timeout=600, env=None, mem_gb=None):
     data = ("\n".join(lines) + "\n").encode()
     e = dict(os.environ)
     e.setdefault("ASAN_OPTIONS", "detect_leaks=0:allocator_may_return_null=1:abort_on_error=0")
@@ -303,18 +311,19 @@ def run_harness(exe, args, lines, timeout=600, env=None):
     if env:
         e.update(env)
     try:
-        p = subprocess.run([exe] + list(args), input=data, stdout=subprocess.PIPE, stderr=subprocess.PIPE, timeout=timeout, env=e)
+        p = subprocess.run([exe] + list(args), input=data, stdout=subprocess.PIPE, stderr=subprocess.PIPE, timeout=timeout, env=e,
+                           preexec_fn=_limit_mem(mem_gb) if mem_gb else None)
         return p.returncode, p.stdout.decode("utf-8", "replace").split("\n")[:-1], p.stderr.decode("utf-8", "replace")
     except subprocess.TimeoutExpired as ex:
         return -999, (ex.stdout or b"").decode("utf-8", "replace").split("\n")[:-1], "TIMEOUT"
 
 
-def run_harness_resilient(exe, args, lines, timeout=900, env=None, max_restarts=60):
+def run_harness_resilient(exe, args, lines, timeout=900, env=None, max_restarts=60, mem_gb=None):
     """Like run_harness, but when the process dies (signal, abort, sanitizer) on a line, record
     'crash:<rc>[:<first stderr line>]' for that line and continue with the next one."""
     out, start, restarts = [], 0, 0
     while start < len(lines):
-        rc, o, err = run_harness(exe, args, lines[start:], timeout=timeout, env=env)
+        rc, o, err = run_harness(exe, args, lines[start:], timeout=timeout, env=env, mem_gb=mem_gb)
         out += o
         start = len(out)
         if start >= len(lines):
